@@ -698,7 +698,8 @@ def check_C05(rep):
     base = len(rep.distinct)
     rep.distinct.update(range(base, base + n))
     hist_stage(rep, "c05-array-streams", probe_cmd("array-run", "batch", rep), "array", "ArrayTrace.tla", "ArrayTrace_C05.cfg", files, "edge", "bulk-built Array " + what)
-    for (depth, num) in ([(6, 100), (9, 100)] if quick else [(5, 1500), (7, 2500), (9, 2500)]):
+    map_stream_stage(rep, "c05", "MapTrace_C05.cfg", "bulk-built OrderedMap " + what)
+    for (depth, num) in ([(9, 60)] if quick else [(5, 1500), (7, 2500), (9, 2500)]):
         nm = "c05-map-streams%d" % depth
         wf, wn = sim_histories(rep, "MC_MapWalk.tla", "MC_MapWalk.cfg",
                                {"Keys": keyset(12), "DigMode": '"spread"', "KSz": 5, "VSizes": "{14, 39, 74, 101}", "GrowUntil": 1000, "ShrinkFrom": 1000000},
@@ -811,6 +812,19 @@ def map_full_stage(rep, tcfg, what, prefix, wrap=False, limits=(255,), probes=No
             else:
                 hist_stage(rep, name + "-edges", ["map-run"], "map", "MapTrace.tla", tcfg, files, "edge", what)
             rep.stages[name + "-edges"]["selected_of_distinct_histories"] = [n, total]
+
+
+def map_stream_stage(rep, prefix, tcfg, what):
+    """Every value-size stream up to 6-7 keys (growth in key order) over sizes on the edges, then the bulk builder on the result:
+    the exhaustive counterpart of the random growth streams (tail rebalance / merge of NewMapFromBatchData)."""
+    mk = 6 if rep.tier == "quick" else 7
+    files, n, total = model_histories(rep, "MC_MapSlab.tla", "MC_MapSlab.cfg",
+                                      {"EmitEdges": "TRUE", "Keys": keyset(mk), "MaxKeys": mk, "VSizes": "{14, 39, 74, 101}", "AppendOnly": "TRUE"},
+                                      "MC_MapSlab growth in key order: all value-size streams over {14,39,74,101} up to %d keys" % mk,
+                                      {"cfg": {"T": 256, "limit": 255}}, None, prefix + "-mstreams")
+    base = len(rep.distinct)
+    rep.distinct.update(range(base, base + n))
+    hist_stage(rep, prefix + "-map-streams-all", probe_cmd("map-run", "batch", rep), "map", "MapTrace.tla", tcfg, files, "edge", what)
 
 
 def map_slab_stage(rep, tcfg, what, prefix):
@@ -1363,6 +1377,7 @@ def check_C17(rep):
     map_full_stage(rep, "MapTrace_C17.cfg", what, "c17", probes="batch,copy", scale=2)
     # short growth-only walks with element sizes on the edges (an element at the inline limit at the tail of a slab,
     # an underflowing trailing slab): tail rebalance / merge of the map bulk builder
+    map_stream_stage(rep, "c17", "MapTrace_C17.cfg", what)
     for (depth, num) in ([(6, 150), (9, 150)] if quick else [(5, 1500), (7, 2500), (9, 2500), (12, 1500)]):
         nm = "c17-map-streams%d" % depth
         wf, wn = sim_histories(rep, "MC_MapWalk.tla", "MC_MapWalk.cfg",
